@@ -775,7 +775,7 @@ Example ex_addr_reply :
   observe_addr (parse_addr_reply LEG_AF_INET false (Parsed ex_rec) true true 1 (Some 1)) =
   Ok (mkAO ARES_SUCCESS
            (VHost (mkHV (Some [120]) [[119]] LEG_AF_INET 4 [[10; 0; 0; 1]; [10; 0; 0; 2]]))
-           (Some 1) [([10; 0; 0; 1], -1)]).
+           (Some 1) [([10; 0; 0; 1], 0)]).
 Proof. vm_compute. reflexivity. Qed.
 
 Theorem addr_nodata family rec q qs arr_given arr_len nopt :
@@ -845,14 +845,54 @@ Theorem negative_length p family wh ag al n addr addrlen fam2 :
   parse_txt_reply_ext true p = (ARES_EBADRESP, []) /\ parse_soa_reply true p = (ARES_EBADRESP, None).
 Proof. split; [eexists; split; [reflexivity | split; reflexivity] | repeat split]. Qed.
 
-(* TTL values: the legacy structs carry the TTL as int, the record API as unsigned int; a TTL
-   with the top bit set is therefore NOT handed out with the record API's value *)
-Lemma addr_ttl_identical_refuted :
-  exists rec r a ttl,
-    parse_addr_reply LEG_AF_INET false (Parsed rec) false true 1 (Some 1) = Ok r /\
-    r_answers rec = [mkRR [119] ARES_CLASS_IN ttl (RD_A a)] /\ 0 <= ttl < 2 ^ 32 /\
-    ar_written r <> [(a, ttl)].
+(* TTL values (with fixes/C18-ttl-int-clamp.patch): the legacy structs carry the TTL as int; what
+   is handed out is never negative, and it is the record's TTL (capped by the CNAME TTLs of the
+   answer) whenever that fits; a TTL with the top bit set counts as 0 (RFC 2181 s.8) *)
+Lemma in_firstn {A} (x : A) n : forall l, In x (firstn n l) -> In x l.
+Proof. induction n as [|n IH]; intros [|y l] H; cbn in H; try contradiction. destruct H as [->|H]; [left; reflexivity | right; apply IH; exact H]. Qed.
+
+Lemma ttl_to_int_range z : 0 <= z -> 0 <= ttl_to_int z <= LEG_INT_MAX.
+Proof. intros Hz. unfold ttl_to_int, LEG_INT_MAX. destruct (Z.gtb_spec z 2147483647); lia. Qed.
+
+Lemma ttl_to_int_id z : 0 <= z <= LEG_INT_MAX -> ttl_to_int z = z.
+Proof. unfold ttl_to_int, LEG_INT_MAX. intros Hz. destruct (Z.gtb_spec z 2147483647); lia. Qed.
+
+Definition ttls_nonneg (rrs : list rr) : Prop := Forall (fun r => 0 <= rr_ttl r) rrs.
+
+Lemma proj_cname_ttl r c : proj_cname r = Some c -> snd c = ttl_to_int (rr_ttl r).
+Proof. unfold proj_cname. destruct (is_in r); [|discriminate]. destruct (rr_data r); try discriminate. intros [= <-]. reflexivity. Qed.
+
+Lemma proj_addr_ttl family r e : proj_addr family r = Some e -> snd e = ttl_to_int (rr_ttl r).
 Proof.
-  exists (mkRec 0 [mkQ [119] ARES_REC_TYPE_A ARES_CLASS_IN] [mkRR [119] ARES_CLASS_IN 4294967295 (RD_A [10; 0; 0; 1])]).
-  eexists _, _, _. split; [vm_compute; reflexivity|]. split; [reflexivity|]. split; [lia|]. discriminate.
+  unfold proj_addr. destruct (is_in r); [|discriminate].
+  destruct (rr_data r); try discriminate; destruct (family =? _); try discriminate; intros [= <-]; reflexivity.
+Qed.
+
+Lemma cname_min_range rrs : ttls_nonneg rrs -> 0 <= cname_min_ttl (filter_map proj_cname rrs) <= LEG_INT_MAX.
+Proof.
+  unfold cname_min_ttl. induction 1 as [|r rrs Hr _ IH]; cbn [filter_map]; [cbn; unfold LEG_INT_MAX; lia|].
+  destruct (proj_cname r) as [c|] eqn:P; [|exact IH].
+  cbn [map fold_right]. rewrite (proj_cname_ttl r c P).
+  pose proof (ttl_to_int_range (rr_ttl r) Hr). lia.
+Qed.
+
+Theorem addr_ttl_range family rec q qs want_host cap r :
+  family = LEG_AF_INET \/ family = LEG_AF_INET6 ->
+  r_questions rec = q :: qs -> 0 <= cap <= LEG_INT_MAX -> ttls_nonneg (r_answers rec) ->
+  parse_addr_reply family false (Parsed rec) want_host true cap (Some cap) = Ok r ->
+  Forall (fun e => 0 <= snd e <= LEG_INT_MAX) (ar_written r).
+Proof.
+  intros Hfam Hq Hcap Hnn Hr.
+  pose proof (addr_reply_spec family rec q qs want_host true cap (Some cap) Hfam Hq ltac:(intros n [= <-]; lia)) as H.
+  destruct (observe_addr_ok _ _ H) as (r' & Er & _ & _ & Hw & _). rewrite Hr in Er. injection Er as <-.
+  rewrite Hw. unfold spec_addr_reply. cbn [ao_written].
+  pose proof (cname_min_range (r_answers rec) Hnn) as Hc.
+  apply Forall_forall. intros e He. apply (in_firstn e) in He. apply in_map_iff in He.
+  destruct He as ([a t] & <- & Hin). cbn [fst snd].
+  assert (Ht : 0 <= t <= LEG_INT_MAX).
+  { clear - Hin Hnn. induction Hnn as [|r0 rrs Hr0 _ IH]; cbn [filter_map] in Hin; [destruct Hin|].
+    destruct (proj_addr family r0) as [e|] eqn:P; [|exact (IH Hin)].
+    destruct Hin as [-> | Hin]; [|exact (IH Hin)].
+    pose proof (proj_addr_ttl family r0 _ P) as E. cbn [snd] in E. rewrite E. apply ttl_to_int_range. exact Hr0. }
+  lia.
 Qed.
